@@ -77,6 +77,24 @@ def returns_unchanged(body, t):
             break
     if 0 not in holders:
         return False
+    # the hand-over is unconditional: the call is not repeated (no loop around it) and every path from it to a return performs the move
+    from . import cfg
+    call_bb = None
+    for blk in body.blocks:
+        if blk["term"] is t:
+            call_bb = blk["i"]
+    if call_bb is None or any(call_bb in bl for _h, bl in cfg.loops(body)):
+        return False
+    movers = set()
+    for blk in body.blocks:
+        for st in blk["stmts"]:
+            rv = st["rv"]
+            if st["place"]["l"] == 0 and not st["place"]["p"] and rv["k"] == "use" and rv["op"]["k"] in ("copy", "move") and rv["op"]["place"]["l"] in holders:
+                movers.add(blk["i"])
+    if t.get("target") is not None:
+        reach = body.reachable_from(t["target"], avoid=frozenset(movers))
+        if any(body.blocks[b_]["term"]["k"] == "return" and not body.blocks[b_]["cleanup"] for b_ in reach):
+            return False
     # _0 must not receive anything else
     for blk in body.blocks:
         if blk["cleanup"]:
